@@ -89,12 +89,12 @@ def build_pool(rng, u, reg, n):
                 add(pel, "callout:" + proc, poison=proc == "FXRAISE", group="co" + c, toks=toks)
         elif r < 0.78:
             c = rng.choice("OBMX")
-            for beh in rng.sample("0EF0DC", 3):
+            for beh in rng.sample("0EF0DCAB0", 4):
                 def b():
                     ref = ("BD8DFX0" + beh) if c == "O" else ("BD8D200" + beh)
                     return pm.Pel(c, pm.gen_ph(rng, u, c), pm.gen_uh(rng, c), [pm.gen_src(rng, u, True, c, srctype="BD", refcode=ref), pm.gen_mt(rng, u, c)])
                 pel, toks = mk(b)
-                add(pel, "src:" + beh, poison=beh in "EF", group="src" + c, toks=toks)
+                add(pel, "src:" + beh, poison=beh in "EFAB", group="src" + c, toks=toks)
         elif r < 0.9:
             pel, toks = mk(lambda: gen.gen_pel(rng, u, reg=reg, nopt=3))
             data = pel.encode()
